@@ -1412,7 +1412,10 @@ int ov_raw_seek(OggVorbis_File *vf,ogg_int64_t pos){
         ogg_stream_reset_serialno(&vf->os,serialno);
         ogg_stream_reset_serialno(&work_os,serialno);
         vf->ready_state=STREAMSET;
-        firstflag=(pagepos<=vf->dataoffsets[link]);
+        /* if the scan began at or before the link's data offset, the
+           first page of this link we meet is its first audio page even
+           when pages of other (multiplexed) streams precede it */
+        firstflag=(pos<=vf->dataoffsets[link]);
       }
 
       ogg_stream_pagein(&vf->os,&og);
